@@ -245,3 +245,36 @@ def compile_determinism(rep, seed, n):
             fail("two compiled stories share mutable containers")
     rep.coverage.setdefault("families", {})["c16-compile"] = {"cases": done}
     rep.coverage["evaluations"] = rep.coverage.get("evaluations", 0) + done
+
+
+def engine_isolation(rep):
+    """engines of DIFFERENT stories in one process do not influence each other: a story that uses a plain variable named
+    like a class another story imports plays the same before and after that other engine was built"""
+    from bardic.runtime.engine import BardEngine
+    a_src = "from datetime import date\nfrom bardic.stdlib.economy import Wallet\n:: Start\n~ d0 = date(2020, 1, 2)\n~ w = Wallet(3)\nyear {d0.year} gold {w.gold}\n+ [go] -> Start\n"
+    b_src = ":: Start\n~ date = 'Monday'\n~ Wallet = 7\nToday is {date}, wallet {Wallet}.\n+ [again] -> Next\n\n:: Next\n~ date = date + '!'\nStill {date} {Wallet + 1}\n+ [back] -> Start\n"
+    def play_b():
+        with quiet():
+            e = BardEngine(corr_play.compile_source(b_src))
+            outs = [e.current().content, e.choose(0).content, e.choose(0).content]
+            doc = e.save_state()
+        return outs, {k: doc["state"].get(k) for k in ("date", "Wallet")}, id(e.context)
+    try:
+        before = play_b()
+        with quiet():
+            ea = BardEngine(corr_play.compile_source(a_src))
+            a_out = ea.current().content
+        after = play_b()
+        with quiet():
+            ea2_ctx = BardEngine(corr_play.compile_source(a_src)).context
+        if before[:2] != after[:2]:
+            rep.violations.append({"cls": None, "family": "c16-isolation", "source": b_src, "other_source": a_src,
+                                   "what": f"a story plays differently after an engine for ANOTHER story was built in the same process: {before[:2]} vs {after[:2]}"})
+        if ea.context is ea2_ctx or before[2] == id(ea.context):
+            rep.violations.append({"cls": None, "family": "c16-isolation", "source": a_src, "what": "two engines share one context dictionary"})
+        if "year 2020 gold 3" not in a_out:
+            rep.violations.append({"cls": None, "family": "c16-isolation", "source": a_src, "what": f"import story shows {a_out!r}"})
+    except Exception as e:  # noqa
+        rep.violations.append({"cls": None, "family": "c16-isolation", "source": b_src, "what": f"isolation probe crashed: {type(e).__name__}: {e}"})
+    rep.coverage.setdefault("families", {})["c16-isolation"] = {"cases": 1}
+    rep.coverage["evaluations"] = rep.coverage.get("evaluations", 0) + 1
